@@ -53,6 +53,15 @@ class _EulerBernoulli(_GroupElem):
     Valid for slender beams (L/h ≫ 1).  For stocky beams use _Timoshenko.
     """
 
+    def Get_F_e_pg(self, matrixType: MatrixType) -> FeArray.FeArrayALike:
+        F_e_pg = super().Get_F_e_pg(matrixType)
+        if self.inDim == 1:
+            # members lying on the x-axis are not projected on their own axis (dim == inDim):
+            # derive along the member, from its first node, as for every other member
+            # (a member pointing toward -x would otherwise be derived against its local x-axis)
+            F_e_pg = np.abs(F_e_pg)
+        return F_e_pg
+
     # Beams shapes functions
     # Use hermitian shape functions
 
